@@ -370,6 +370,73 @@ fn check_gate_collision(name_ix: usize, np: usize, nq: usize, obs: &mut Obs) {
     obs.done(true);
 }
 
+/// The recorded arity is the number of parameters written, also when a name is written twice (which
+/// is diagnosed as a redeclaration).  `GD|<n params>|<n qubits>|<dup: p|q|d>`
+fn check_dup_params(np: usize, nq: usize, dup: &str, obs: &mut Obs) {
+    let mut ps: Vec<String> = (0..np).map(|i| format!("p{i}")).collect();
+    let mut qs: Vec<String> = (0..nq).map(|i| format!("q{i}")).collect();
+    let src = match dup {
+        "p" if np >= 2 => {
+            ps[np - 1] = ps[0].clone();
+            format!("gate dupg({}) {} {{ }}\n", ps.join(", "), qs.join(", "))
+        }
+        "q" if nq >= 2 => {
+            qs[nq - 1] = qs[0].clone();
+            format!("gate dupg{} {} {{ }}\n", if np == 0 { String::new() } else { format!("({})", ps.join(", ")) }, qs.join(", "))
+        }
+        "d" if np >= 2 => {
+            let params: Vec<String> = (0..np).map(|i| format!("int[8] {}", if i == np - 1 { "a0".to_string() } else { format!("a{i}") })).collect();
+            format!("def dupd({}) {{ }}\n", params.join(", "))
+        }
+        _ => {
+            obs.done(false);
+            return;
+        }
+    };
+    obs.fp.str(&src);
+    let res = match analyse_text(&src) {
+        Ok(r) => r,
+        Err(_) => {
+            obs.inconclusive("analysis failed");
+            return;
+        }
+    };
+    let r = guard(|| {
+        let t = res.symbol_table();
+        let mut problems: Vec<(String, String)> = Vec::new();
+        if dup == "d" {
+            match find_symbol(t, "dupd") {
+                Some(Type::SubroutineDef(SubroutineDef { num_params, .. })) if *num_params == np => {}
+                other => problems.push(("def-param-count".into(), format!("{other:?}, {np} parameters written"))),
+            }
+        } else {
+            match find_symbol(t, "dupg") {
+                Some(Type::Gate(a, b)) if *a == np && *b == nq => {}
+                other => problems.push(("gate-arity".into(), format!("{other:?}, ({np}, {nq}) written"))),
+            }
+            let listed: Vec<(String, usize, usize)> = t.gates().map(|(n, _, a, b)| (n.to_string(), a, b)).collect();
+            if listed != vec![("dupg".to_string(), np, nq)] {
+                problems.push(("gates-listing".into(), format!("{listed:?}")));
+            }
+        }
+        let redecl = res.semantic_errors().iter().filter(|e| diag_kind(e) == "RedeclarationError").count();
+        if redecl != 1 {
+            problems.push(("redeclaration-count".into(), format!("{redecl} RedeclarationError diagnostics, expected exactly 1")));
+        }
+        problems
+    });
+    match r {
+        Ok(problems) => {
+            for (c, d) in problems {
+                obs.violate(format!("repeated-parameter-name/{dup}/{c}"), format!("{src:?}: {d}"));
+            }
+        }
+        Err(p) => obs.inconclusive(format!("monitor panicked {}", p.site())),
+    }
+    obs.class("gate-signature");
+    obs.done(true);
+}
+
 /// A designator identifier resolves like any other use: to the innermost visible declaration, also
 /// two scopes below it and also when the global scope has a const of the same name.
 /// `NS|<base>|<global width>|<inner width or "nonconst">|<scope pair>`
@@ -577,6 +644,7 @@ impl Property for C09 {
             // once with the library's arity, once with another one
             if i / n == 0 { format!("GC|{}|{a}|{b}", i % n) } else { format!("GC|{}|{}|{}", i % n, (a + 1) % 4, b % 3 + 1) }
         }));
+        v.push(Stream::new("repeated-parameter-names", 3 * 4 * 3, true, |i| format!("GD|{}|{}|{}", 2 + i % 3, 1 + (i / 3) % 4, ["p", "q", "d"][(i / 12) as usize])));
         v.push(Stream::new("designator-identifier-shadowed-two-scopes-up", 4 * 5 * 3, true, |i| {
             let base = ["int", "uint", "float", "bit"][(i % 4) as usize];
             let pair = ["def>if", "def>while>if", "if>for", "for-var>if", "if>if"][((i / 4) % 5) as usize];
@@ -592,6 +660,9 @@ impl Property for C09 {
         } else if let Some(rest) = input.strip_prefix("G|") {
             let p: Vec<usize> = rest.split('|').filter_map(|x| x.parse().ok()).collect();
             check_gate_sig(p[0], p[1], p[2] == 1, obs);
+        } else if let Some(rest) = input.strip_prefix("GD|") {
+            let p: Vec<&str> = rest.split('|').collect();
+            check_dup_params(p[0].parse().unwrap_or(2), p[1].parse().unwrap_or(1), p[2], obs);
         } else if let Some(rest) = input.strip_prefix("NS|") {
             check_nested_designator(rest, obs);
         } else if let Some(rest) = input.strip_prefix("GC|") {
